@@ -161,6 +161,19 @@ CHECKS = {
             "cap-area cross-check; convex polygons inscribed in a small circle.",
             "TLC-enumerated configuration lattice + relational trace validation by TLC on fixed-point projections of real Region queries",
             "4/C09"),
+    "C01": ("exploration",
+            "Recovery.tla states the closed loop Report(Inject(src)) = {src} with the property's tolerances as integer predicates (0.02 px, 0.1 %, "
+            "0.5 %, 0.5 deg, 0.5 %; with noise: 5 reported standard errors or the noise-free tolerance); MC_RecoveryConfig lets TLC enumerate the "
+            "4800 admissible configurations (projection x docov x forced/internal bkg-rms x cores x dec zone x RA class x pixel scale x beam class "
+            "x noise). For a covering sample (quick) or all forced + 400 internal configurations (thorough) the harness draws the continuous "
+            "parameters from the seed (sub-pixel phases incl. 0 and 0.5, PA, axis ratio, amplitude, sign), defines the ellipse on the sky, converts "
+            "and renders it independently of AegeanTools (astropy + own small-circle offsets), runs the real find_sources_in_image / aegean CLI, "
+            "projects the reported row back with astropy and TLC validates the integer deviations (Recovery_Trace). Sampling strength in the "
+            "continuous parameters.",
+            "isolated single source >= 30 px from the edges; with noise S/N >= 30 and the noise model the fit assumes (beam-correlated for docov, white "
+            "otherwise); PA compared for axis ratio >= 1.02; three known findings (exact half-pixel tie, noisy extended sources split / beyond 5 sigma).",
+            "TLC-enumerated configuration lattice + relational trace validation by TLC on fixed-point projections of inject->find->report executions",
+            "4/C01"),
 }
 
 NOT_YET = "check not built yet in this round of construction (planned, see DESIGN.md section 4)"
